@@ -32,7 +32,7 @@ URL: TypeAlias = AnyHttpUrl
 Text: TypeAlias = NonEmptyStr
 Number: TypeAlias = Union[Int, Float]
 
-DateOrDatetime = Union[date, datetime]
+DateOrDatetime = Union[datetime, date]  # datetime first: a date validator would truncate datetime objects
 TimeOrDatetime = Union[time, datetime]
 
 # ----
